@@ -294,7 +294,7 @@ def record_reader(ctx, R, roles, T, rule="REC"):
     stat_wire = b"STAT"
     for rn in g.live_nodes():
         if rn.kind == "stmt" and isinstance(rn.ast, ast.Return):
-            rt0 = T.term(f, rn, rn.ast.value)
+            rt0 = T.under_path(f, rn, T.term(f, rn, rn.ast.value))
             # one return for both kinds of record: a conditional on the record id
             cases = [(rt0, None)]
             if rt0[0] == "ite":
